@@ -93,7 +93,13 @@ pub unsafe extern "C" fn clock_gettime(clk: libc::clockid_t, ts: *mut libc::time
         }
     }
     let (s, n) = if is_mono(clk) { get_mono() } else { get_real() };
-    LOG.lock().unwrap_or_else(|e| e.into_inner()).push((clk, s, n));
+    {
+        // bounded: a call that spins on the clock must not exhaust memory before the watchdog ends it
+        let mut log = LOG.lock().unwrap_or_else(|e| e.into_inner());
+        if log.len() < 100_000 {
+            log.push((clk, s, n));
+        }
+    }
     (*ts).tv_sec = s;
     (*ts).tv_nsec = n;
     0
